@@ -75,11 +75,11 @@ func DefaultKnobs() Knobs {
 }
 
 var domains = []string{"a.b", "c.d", "e.f", "g", "h.io/u", "x.y/z/w", "k8s.io", "日本.jp"}
-var bases = []string{"x", "X", "d", "y", "go", "v2", "x1", "x2", "pkg", "pkg_x", "pkg_d", "1x", "123", "x-y", "x.y", "日本", "ünï", "--", "a_b", "rand", "template", "fmt", "os", "main", "init", "c", "C", "p1"}
+var bases = []string{"x", "X", "d", "y", "go", "v2", "x1", "x2", "pkg", "pkg_x", "pkg_d", "1x", "123", "x-y", "x.y", "日本", "ünï", "--", "a_b", "rand", "template", "fmt", "os", "main", "init", "c", "C", "p1", "x²", "½", "Ⅷ", "①x", "x٣", "int", "uint", "float", "complex", "٣"}
 var stdPool = []string{"fmt", "os", "io", "math/rand", "crypto/rand", "text/template", "html/template", "net/http", "net/http/pprof", "runtime/pprof", "go/scanner", "text/scanner", "encoding/json", "unsafe", "go/ast", "math/rand/v2", "internal/abi", "sort", "errors", "context", "path", "path/filepath", "strings", "bytes", "go/types", "go/token", "sync/atomic", "time"}
 var aliasPool = []string{"x", "y", "d", "rand", "fmt", "zz", "x1", "x2", "pkg_d", "pkg_x", "os", "X", "ünï", "a_b", "template", "c", "C", "go1", "any1", "_x", "x_"}
 var prefixPool = []string{"pkg", "p1", "X", "go", "a_b"}
-var trueNamePool = []string{"x", "d", "real", "pkg_d", "pkg_x", "x1", "rand", "fmt", "y", "zz", "go1"}
+var trueNamePool = []string{"x", "d", "real", "pkg_d", "pkg_x", "x1", "rand", "fmt", "y", "zz", "go1", "größe", "naïve", "日本", "x_1", "Rand", "rand1", "p1_rand1"}
 
 var reservedOnce []string
 
@@ -99,7 +99,7 @@ func Generate(r *rand.Rand, k Knobs) *Scenario {
 	pct := func(p int) bool { return r.Intn(100) < p }
 	used := map[string]bool{}
 	if pct(k.LocalPct) {
-		locals := []string{"my/local", "a.b/x", "x", "my/Local/pkg", "h.io/u/d"}
+		locals := []string{"my/local", "a.b/x", "x", "my/Local/pkg", "h.io/u/d", "my/local/", "e.f/x1"}
 		s.LocalPath = locals[r.Intn(len(locals))]
 		used[s.LocalPath] = true
 		if r.Intn(2) == 0 {
@@ -246,6 +246,17 @@ func Generate(r *rand.Rand, k Knobs) *Scenario {
 	r.Shuffle(len(s.Hints), func(i, j int) { s.Hints[i], s.Hints[j] = s.Hints[j], s.Hints[i] })
 	if pct(k.BigHintsPct) {
 		s.BigHints = 50 + r.Intn(450)
+	}
+	// cgo preambles: "C" is then imported even if nothing refers to it
+	if k.AllowC && r.Intn(12) == 0 {
+		if s.pathIndex("C") < 0 {
+			addPath("C", false)
+		}
+		for i, n := 0, 1+r.Intn(2); i < n; i++ {
+			at := r.Intn(len(s.Hints) + 1)
+			pre := []string{"#include <a.h>", "#include <b.h>\nvoid f() {}\n", "// #cgo LDFLAGS: -lm"}[r.Intn(3)]
+			s.Hints = append(s.Hints[:at], append([]Hint{{Op: "CgoPreamble", Name: pre}}, s.Hints[at:]...)...)
+		}
 	}
 	// references
 	anon := map[int]bool{}
